@@ -287,6 +287,11 @@ pub fn c03(ctx: &Ctx) -> Report {
         vec!["5", "10\u{1}"],
         vec!["10\u{1}", "5"],
         vec!["5", "+5"],
+        // one field line holding a comma list: not a number, whatever its members are
+        vec!["5, 12"],
+        vec!["12, 5"],
+        vec!["0, 5"],
+        vec!["5, 5"],
         vec!["5 "],
         vec!["5  ", "5"],
         vec!["05"],
